@@ -63,8 +63,8 @@ def k1(cx):
     fl = Flow(fn)
     d = Defs(fn)
     lin = Lin(d.resolver())
+    MAYCOPY = {"ascontiguousarray", "asfortranarray", "copy", "astype", "array", "asarray", "tobytes", "flatten", "require", "asanyarray", "bytes", "bytearray"}
     casts = [c for c in own_nodes(fn) if isinstance(c, ast.Call) and call_name(c) == "cast"]
-    cx.need(len(casts) >= 3, f"to_function_arg: expected 3 cffi casts (ndarray, xobject array, compound), found {len(casts)}")
     kinds = {}
     for c in casts:
         txt = " & ".join(x.text() for x in fl.conds_at(c) if x.kind == "if")
@@ -74,7 +74,33 @@ def k1(cx):
             kinds["xoarray"] = c
         elif "not (arg.pointer)" in txt and "_size" in txt:
             kinds["compound"] = c
-    cx.need(set(kinds) == {"ndarray", "xoarray", "compound"}, f"to_function_arg: arms not recognised ({sorted(kinds)})")
+    # the ndarray arm, whatever its shape: the pointer must be taken from `value`'s own memory -- a call that may copy
+    # (ascontiguousarray, astype, copy, np.array ...) hands the kernel a temporary: its writes are lost, its reads stale
+    nd_rets = []
+    for r in own_nodes(fn):
+        if isinstance(r, ast.Return) and r.value is not None:
+            txt = " & ".join(x.text() for x in fl.conds_at(r) if x.kind == "if")
+            if "arg.pointer" in txt and "hasattr(value, 'dtype')" in txt and "not (hasattr(value, 'dtype'))" not in txt:
+                nd_rets.append(r)
+    cx.need(len(nd_rets) >= 1, "to_function_arg: the ndarray arm (arg.pointer, scalar type, value has dtype) not found")
+    for r in nd_rets:
+        exprs = [r.value]
+        seen = set()
+        copies = []
+        while exprs:
+            e = exprs.pop()
+            for n in ast.walk(e):
+                if isinstance(n, ast.Name) and n.id not in seen and d.single(n.id) is not None:
+                    seen.add(n.id)
+                    exprs.append(d.single(n.id))
+                if isinstance(n, ast.Call) and call_name(n) in MAYCOPY and any(isinstance(q, ast.Name) and q.id == "value" for a in list(n.args) + [n.func] for q in ast.walk(a)):
+                    copies.append(n)
+        cx.check(not copies, copies[0] if copies else r, construct=f"ndarray arm: {short(r.value, 110)}", detail="the pointer is derived from the caller's array itself (no copying call on the way)",
+                 bad_detail=f"`{call_name(copies[0]) if copies else ''}` may copy the caller's array (it does for strided / reversed / F-ordered / transposed arrays): the kernel then works on a temporary, everything it writes is lost and x[i] reads the compacted copy", sub="ndarray.nocopy")
+    if set(kinds) != {"ndarray", "xoarray", "compound"}:
+        if any(i.verdict == "violation" for i in cx.insts):
+            return  # already decided; the shape-specific checks below do not apply to this shape
+        cx.need(False, f"to_function_arg: arms not recognised ({sorted(kinds)})")
     # K1 compound
     c = kinds["compound"]
     cx.need(len(c.args) == 2, "compound cast arity")
